@@ -58,9 +58,15 @@ func (m rnsModel) clone() rnsModel {
 
 func (s RNS) ID() string   { return s.Prop }
 func (s RNS) Name() string { return s.Prop + "/rns" }
+
+// rnsBig: an amount above 2^63-1 of a denomination with many decimals (coin amounts are arbitrary-precision integers)
+const rnsBig = "9223372036854775808ubig"
+
 func (s RNS) Config() world.Config {
+	big, _ := sdk.NewIntFromString("40000000000000000000")
 	return world.Config{
 		Accounts: []string{"A", "B", "C"},
+		Balances: map[string]sdk.Coins{"A": world.DefaultBalance().Add(sdk.NewCoin("ubig", big))},
 		GenesisMod: func(cdc codec.JSONCodec, gs app.GenesisState) {
 			var g rnstypes.GenesisState
 			cdc.MustUnmarshalJSON(gs[rnstypes.ModuleName], &g)
@@ -117,6 +123,9 @@ func (s RNS) Events(env world.Env, mm mc.Model) []string {
 			if s.Prop == "C09" {
 				add("Bid:%s:%s:5uatom", x, n)
 				add("BidFail:%s:%s:7ujkl", x, n) // one transaction: this bid, then a message that fails
+				if x == "A" {
+					add("Bid:%s:%s:%s", x, n, rnsBig)
+				}
 			}
 			add("Cancel:%s:%s", x, n)
 			for _, y := range others(x) {
@@ -346,7 +355,7 @@ func (s RNS) Apply(env world.Env, mm mc.Model, ev string) mc.Step {
 		// delta form: Δ module balance == Δ Σ open bids, per denomination
 		dSum, neg := after.bidSum.SafeSub(before.bidSum)
 		_ = neg
-		for _, denom := range []string{"ujkl", "uatom"} {
+		for _, denom := range []string{"ujkl", "uatom", "ubig"} {
 			dm := deltaOf(d, rnsMod, denom)
 			if !dm.Equal(dSum.AmountOf(denom)) {
 				why := "via=" + p[0]
@@ -372,10 +381,14 @@ func (s RNS) Apply(env world.Env, mm mc.Model, ev string) mc.Step {
 				m.Escrow[key] = escrowAdd(m.Escrow[key], d[signer])
 			}
 		case "Cancel":
+			if _, open := before.bids[signer+p[2]]; open && m.Escrow[key] != "" && !res.OK() && rawName == p[2] {
+				// the bidder's own open bid, addressed by the spelling it is stored under: cancelling is how the escrow comes back
+				vs = append(vs, viol("cancel-returns-all-escrow", "cancel-of-an-open-bid-rejected", "%s has an open bid (%s escrowed) on %s but cannot cancel it: %v", p[1], m.Escrow[key], p[2], res.Err))
+			}
 			if res.OK() {
 				st.Exercised = append(st.Exercised, "cancel-ok")
 				esc, _ := sdk.ParseCoinsNormalized(m.Escrow[key])
-				for _, dn := range []string{"ujkl", "uatom"} {
+				for _, dn := range []string{"ujkl", "uatom", "ubig"} {
 					if !deltaOf(d, signer, dn).Equal(esc.AmountOf(dn)) {
 						vs = append(vs, viol("cancel-returns-all-escrow", "refund≠escrowed",
 							"%s escrowed %s for %s, cancel returned %s%s", p[1], esc, p[2], deltaOf(d, signer, dn), dn))
@@ -391,7 +404,7 @@ func (s RNS) Apply(env world.Env, mm mc.Model, ev string) mc.Step {
 				st.Exercised = append(st.Exercised, "accept-ok")
 				bkey := p[3] + "|" + p[2]
 				esc, _ := sdk.ParseCoinsNormalized(m.Escrow[bkey])
-				for _, dn := range []string{"ujkl", "uatom"} {
+				for _, dn := range []string{"ujkl", "uatom", "ubig"} {
 					if !deltaOf(d, signer, dn).Equal(esc.AmountOf(dn)) {
 						vs = append(vs, viol("accept-pays-owner-the-escrow", "paid≠escrowed",
 							"%s escrowed %s for %s, owner received %s%s", p[3], esc, p[2], deltaOf(d, signer, dn), dn))
@@ -403,7 +416,7 @@ func (s RNS) Apply(env world.Env, mm mc.Model, ev string) mc.Step {
 				delete(m.Escrow, bkey)
 			}
 		case "Register", "Buy":
-			if !deltaOf(d, rnsMod, "ujkl").IsZero() || !deltaOf(d, rnsMod, "uatom").IsZero() {
+			if !deltaOf(d, rnsMod, "ujkl").IsZero() || !deltaOf(d, rnsMod, "uatom").IsZero() || !deltaOf(d, rnsMod, "ubig").IsZero() {
 				vs = append(vs, viol("no-residue", "via="+p[0], "%s left %s in the module account", ev, diffString(w, d, labels)))
 			}
 		}
@@ -417,20 +430,23 @@ func (s RNS) Apply(env world.Env, mm mc.Model, ev string) mc.Step {
 
 // escrowAdd subtracts the bidder's balance change (negative when paying) from the escrow tally "denom=amt,...".
 func escrowAdd(cur string, delta map[string]sdk.Int) string {
-	t := map[string]int64{}
+	t := map[string]sdk.Int{} // arbitrary precision: bids may exceed 2^63-1
 	if cur != "" {
 		cs, _ := sdk.ParseCoinsNormalized(cur)
 		for _, c := range cs {
-			t[c.Denom] = c.Amount.Int64()
+			t[c.Denom] = c.Amount
 		}
 	}
 	for dn, v := range delta {
-		t[dn] -= v.Int64()
+		if _, ok := t[dn]; !ok {
+			t[dn] = sdk.ZeroInt()
+		}
+		t[dn] = t[dn].Sub(v)
 	}
 	out := sdk.NewCoins()
 	for dn, v := range t {
-		if v > 0 {
-			out = out.Add(sdk.NewInt64Coin(dn, v))
+		if v.IsPositive() {
+			out = out.Add(sdk.NewCoin(dn, v))
 		}
 	}
 	return out.String()
